@@ -26,7 +26,7 @@ from ..explorer import Step
 
 PROPERTY = "C19"
 ALPHABET = "closing routes: close_connection (default arguments / last_stream_id=2^31-1) / received GOAWAY (alone / with binary debug data / after a PING or SETTINGS in the same chunk) / FRAME_SIZE, PROTOCOL, FLOW_CONTROL connection errors; post-close: all sending calls on ids {1,2,3,5}, acknowledge_received_data, close_connection, and frames of every type on ids {0,1,2,3}"
-BOUNDS = {"quick": "all base states x 5 closing routes x both roles, post-close depth 2 (after the drain step)", "thorough": "post-close depth 3"}
+BOUNDS = {"quick": "all base states x 10 closing routes x both roles, post-close depth 3 (after the drain step)", "thorough": "post-close depth 4"}
 sb = H.stateless_block
 
 ROUTES = ["close_connection", "close_connection-last-max", "rx-goaway", "rx-goaway-binary-debug", "rx-ping+goaway", "rx-settings+goaway",
@@ -113,8 +113,10 @@ def close_it(conn, client, route):
         data = wire.window_update(0, 2 ** 31 - 1).serialize()
     try:
         conn.receive_data(data)
-    except Exception:  # noqa: BLE001
-        return not route.startswith("rx-")
+    except Exception as e:  # noqa: BLE001
+        if route.startswith("rx-"):
+            return "%s: %s" % (type(e).__name__, e)      # a GOAWAY that is legal on the wire was not taken: reported below
+        return True
     return route.startswith("rx-")
 
 
@@ -128,7 +130,7 @@ class Spec:
         self.client = role == "client"
         self.tier = tier
         self.name = "c19-%s-%s" % (role, tier)
-        self.max_depth = 3 if tier == "quick" else 4
+        self.max_depth = 4 if tier == "quick" else 5
         client = self.client
         calls = []
         for sid in (1, 2, 3, 5):
@@ -185,20 +187,24 @@ class Spec:
                     conn.receive_data(wire.PREFACE[10:])
                 if name != "pending-output":
                     conn.data_to_send()
-                if not close_it(conn, self.client, route):
-                    continue
+                res = close_it(conn, self.client, route)
+                if not res or (isinstance(res, str) and name == "mid-block"):
+                    continue          # (inside a header block a GOAWAY is itself a connection error: the err- routes cover that)
                 st = S()
                 st.conn = conn
                 st.route = route
                 st.base = name
                 st.first = True
+                st.route_failed = res if isinstance(res, str) else None
                 out.append(("%s/%s" % (name, route), st))
         return out
 
     def fingerprint(self, st):
-        return fingerprint(st.conn, st.first)
+        return fingerprint(st.conn, st.first, st.route_failed)
 
     def actions(self, st):
+        if st.route_failed:
+            return ["report"] if st.first else []
         if st.first:
             # either the application collects the output first, or the peer's GOAWAY gets there before it does
             return ["drain", "goaway-before-drain"]
@@ -221,6 +227,10 @@ class Spec:
                     frame=other[0].name, **sig)
 
         conn = st.conn
+        if lab == "report":
+            st.first = False
+            bad("goaway-not-accepted", "the peer's GOAWAY was answered with %s" % st.route_failed, route=st.route)
+            return Step("route-failed", viols, prune=True)
         if lab == "drain":
             # the output right after the close
             st.first = False
